@@ -79,6 +79,20 @@ type rcRun struct {
 	connectOK bool
 	connErr   error
 	log       int // object for Event
+	handledBy  []rcHandled
+	registered []rcRegistered
+	onErrAt    []int64 // virtual time of each OnError call
+}
+
+type rcHandled struct {
+	Handler string
+	Payload string
+	At      int // position in the wire trace
+}
+
+type rcRegistered struct {
+	Handler string
+	At      int
 }
 
 func (r *rcRun) ev(s string) { vrt.Event(unsafe.Pointer(&r.log), vrt.HashString(s)) }
@@ -104,6 +118,13 @@ func (r *rcRun) submit(i int) {
 		_, err = r.rc.Subscribe(ctx, subs...)
 	case "unsub":
 		err = r.rc.Unsubscribe(ctx, q.Subs...)
+	case "handle":
+		name := q.Tag
+		r.rc.Handle(mqtt.HandlerFunc(func(m *mqtt.Message) {
+			r.handledBy = append(r.handledBy, rcHandled{Handler: name, Payload: string(m.Payload), At: len(r.net.Trace)})
+			r.ev("handled " + name + " " + string(m.Payload))
+		}))
+		r.registered = append(r.registered, rcRegistered{Handler: name, At: len(r.net.Trace)})
 	}
 	r.submitted[i] = true
 	r.accepted[i] = err == nil
@@ -163,6 +184,7 @@ func rcExecuteInto(cfg *rcCfg, out **rcRun) *rcRun {
 	r.retry = &mqtt.RetryClient{ResponseTimeout: cfg.RespTimeout}
 	r.retry.OnError = func(err error) {
 		r.onErr = append(r.onErr, err)
+		r.onErrAt = append(r.onErrAt, vrt.Now())
 		r.ev("onerror")
 		if vrt.Tracing() {
 			vrt.Tracef("   OnError: %v", err)
@@ -207,6 +229,8 @@ func rcExecuteInto(cfg *rcCfg, out **rcRun) *rcRun {
 				vrt.Await("outage", func() bool {
 					return len(r.net.Conns) > 0 && len(r.net.Conns) >= k && r.net.Conns[len(r.net.Conns)-1].Down()
 				})
+			case 'T':
+				vrt.Sleep(int64(15 * time.Second))
 			case 'H':
 				k := len(r.net.Conns)
 				vrt.Await("reconnect handshake", func() bool {
